@@ -1706,7 +1706,7 @@ register("C01", run_C01, ["C01.C01_every_grammar", "C01.C01_generator_passes_val
 register("C02", run_C02, ["C02.C02_every_grammar", "C02.C02_tree", "C02.C02_that_tree", "C02.C02_unique", "C02.C02_faithful"])
 register("C03", run_C03, ["C03.C03_every_grammar", "C03.C03_viable", "C03.C03_not_early", "C03.C03_lookahead_only", "C03.C03_first_offending", "C03.C03_front_end", "C03.C03_front_end_first_offending"])
 register("C04", run_C04, ["C04.C04_emitted_iff_conflict_free", "C04.C04_setAction_ok_iff", "C04.C04_setAction_fresh", "C04.C04_ok_conflict_free", "C04.C04_conflict_genuine"])
-register("C05", run_C05, ["C05.C05_fresh"])
+register("C05", run_C05, ["C05.C05_names_distinct", "C05.C05_names_exist", "C05.C05_fresh"])
 register("C06", run_C06, ["C06.C06_fields", "C06.C06_items_and_signature"])
 register("C07", run_C07, ["C07.C07_generate_no_panic", "C07.C07_emission_total", "C07.C07_validate_no_panic", "C07.C07_generator_no_panic", "C07.C07_generator_total", "C07.C07_parse_error_no_panic", "C07.bracketScan_no_panic", "C07.C07_handleMain_no_panic", "C07.C07_tokenize_total", "C07.C07_parse_no_panic", "C07.C07_cst_to_ast_total"])
 register("C08", run_C08, ["C08.C08_positions", "C08.C08_scan_total", "C08.C08_double_colon", "C08.C08_tokenize_eq_spec", "C08.C08_tokenize_total"])
